@@ -62,10 +62,10 @@ theorem operators_correct {R : Type} [CommRing R] {o : Ops R} (ho : RingLike o)
 
 /-- relational functions: component `j` of `lessThan(x, y)` is `1` exactly when `x[j] < y[j]`, etc. -/
 theorem relational_correct {R : Type} [CommRing R] {o : Ops R} (ho : RingLike o)
-    (f : Family) (hf : f ∈ families) (htm : f.treeMode = true) (hk : f.kind = .syn)
+    (f : Family) (hf : f ∈ families) (htm : f.treeMode = true) (hw : f.treeWalk = false) (hk : f.kind = .syn)
     (ks : List Nat) (hks : ks ∈ f.keys) (j : Nat) (hj : j < f.nOut ks) (env : Nat → R) :
     ((lookup f.unit ks).out j).eval o env = (f.specT ks j).eval o env :=
-  Family.tree_syn_sound ho (all_ok f hf) htm hk hks hj env
+  Family.tree_syn_sound ho (all_ok f hf) htm hw hk hks hj env
 
 /-- non-vacuity: the clamp units branch, and the table covers 37 functions -/
 example : relFamilies.length = 37 ∧ ((lookup "v_clamp" [7, 4]).out 3).leaves.length > 1 ∧
